@@ -14,7 +14,7 @@ Direct oracle: the relations of the statement evaluated on the real code for ran
               (the generator used after an epoch switch is the new epoch's)
 Correspondence: for the horizon clause the infinite-horizon mean is also taken from the Lean model (<= 20 states).
 """
-import itertools, json, math, random
+import hashlib, itertools, json, math, random
 import numpy as np
 import pgcommon as C
 import conv, gen
@@ -129,6 +129,11 @@ def small_sfs(cfg):
     return n <= (5 if D == 1 else 4 if D == 2 else 3)
 
 
+def digest(*key):
+    """short stable identifier of a distinct non-trivial case"""
+    return hashlib.sha1(repr(key).encode()).hexdigest()[:20]
+
+
 class Skip(Exception):
     pass
 
@@ -199,7 +204,7 @@ def clause_redundant(ctx, pg, cfg, params):
     for label, coal in variants:
         res = snapshot(pg, coal, cfg, times, Te)
         ctx.case(dict(cfg=cfg, clause='redundant', params=params, variant=label),
-                 (gen.cfg_key(cfg), 'redundant', label, json.dumps(params)) if nontrivial(cfg, True) else None)
+                 digest(gen.cfg_key(cfg), 'redundant', label, json.dumps(params)) if nontrivial(cfg, True) else None)
         ctx.count('clause:redundant')
         for key, (a, k) in ref.items():
             b = res[key][0]
@@ -247,7 +252,7 @@ def clause_refine(ctx, pg, cfg, params):
         a, k = curve(pg, shared or make(pg, cfg), name, coarse)
         b, _ = curve(pg, shared or make(pg, cfg), name, fine)
         ctx.case(dict(cfg=cfg, clause='refine', curve=name, params=params),
-                 (gen.cfg_key(cfg), 'refine', name, json.dumps(params)) if nontrivial(cfg) and len(coarse) < len(fine) else None)
+                 digest(gen.cfg_key(cfg), 'refine', name, json.dumps(params)) if nontrivial(cfg) and len(coarse) < len(fine) else None)
         ctx.count('clause:refine')
         if differs(a, b[..., idx], 1e-12 * scale ** k):
             report(ctx, f'refine:{name}', cfg, 'refine', dict(params, curves=[name]), coarse=coarse, expected=b[..., idx],
@@ -291,7 +296,7 @@ def clause_route(ctx, pg, cfg, params):
             k, rts = routes(pg, cfg, T, stat)
             vals = [(label, arr(f())) for label, f in rts]
             ctx.case(dict(cfg=cfg, clause='route', T=T, stat=stat),
-                     (gen.cfg_key(cfg), 'route', T, stat) if nontrivial(cfg) else None)
+                     digest(gen.cfg_key(cfg), 'route', T, stat) if nontrivial(cfg) else None)
             ctx.count('clause:route')
             for (la, a), (lb, b) in itertools.combinations(vals, 2):
                 if differs(a, b, 1e-12 * max(T, 1e-300) ** k):
@@ -326,7 +331,7 @@ def clause_additive(ctx, pg, cfg, params):
             first = arr(dist(make(pg, cfg)).moment(1, start_time=0, end_time=a))
             second = arr(dist(make(pg, cfg)).moment(1, start_time=a, end_time=b))
             ctx.case(dict(cfg=cfg, clause='additive', window=[a, b], stat=stat),
-                     (gen.cfg_key(cfg), 'additive', a, b, stat) if nontrivial(cfg) and 0 < a < b else None)
+                     digest(gen.cfg_key(cfg), 'additive', a, b, stat) if nontrivial(cfg) and 0 < a < b else None)
             ctx.count('clause:additive')
             floor = 1e-12 * max(b, 1e-300)
             if differs(whole, first + second, floor):
@@ -381,7 +386,7 @@ def clause_monotone(ctx, pg, cfg, params):
     for label, f in curves:
         v = f()
         ctx.case(dict(cfg=cfg, clause='monotone', curve=label, grid=grid),
-                 (gen.cfg_key(cfg), 'monotone', json.dumps(label), tuple(grid)) if nontrivial(cfg) else None)
+                 digest(gen.cfg_key(cfg), 'monotone', json.dumps(label), tuple(grid)) if nontrivial(cfg) else None)
         ctx.count('clause:monotone')
         k = len(label) if isinstance(label, list) else int(label.split('(')[1][0])
         # rounding floor: the Van Loan block holds numbers of the size of the k-th raw moment of the largest reward
@@ -493,7 +498,7 @@ def clause_restart(ctx, pg, cfg, params):
     X, S = make(pg, cfg), make(pg, sh)
     surv_tb = 1.0 - float(X.tree_height.cdf(tb))
     for s in ss:
-        ctx.case(dict(cfg=cfg, clause='restart', tb=tb, s=s, shifted=sh), (gen.cfg_key(cfg), 'restart', tb, s))
+        ctx.case(dict(cfg=cfg, clause='restart', tb=tb, s=s, shifted=sh), digest(gen.cfg_key(cfg), 'restart', tb, s))
         ctx.count('clause:restart')
         lhs = 1.0 - float(X.tree_height.cdf(tb + s))
         rhs = surv_tb * (1.0 - float(S.tree_height.cdf(s)))
